@@ -126,7 +126,18 @@ pub fn check(stream: &[u8], cuts: &[usize], bufsize: usize, what: &str, rep: &mu
     match subject(stream, cuts, bufsize) {
         Err(p) => rep.violate(format!("reassembler-panics/{}/{}", what, crate::util::panic_site(&p)), p, replay()),
         Ok(got) => {
-            if got != want {
+            // an error step is judged by what the statement fixes: its kind, the call at which it is raised and the
+            // buffer being handed back whole; `consumed`, `size` and the handed-back contents are not specified
+            let norm = |v: &[Step]| -> Vec<Step> {
+                v.iter()
+                    .map(|s| match s {
+                        Step::Err { small, buf_len, .. } => Step::Err { small: *small, consumed: 0, size: 0, buf_len: *buf_len, head: vec![] },
+                        o => o.clone(),
+                    })
+                    .collect()
+            };
+            if norm(&got) != norm(&want) {
+                let (got, want) = (norm(&got), norm(&want));
                 let ix = got.iter().zip(want.iter()).position(|(a, b)| a != b).unwrap_or(got.len().min(want.len()));
                 let kind = match (got.get(ix), want.get(ix)) {
                     (Some(Step::Decoded { .. }), Some(Step::Decoded { .. })) => "packet-bytes-or-consumed-count",
@@ -247,6 +258,40 @@ pub fn run(ctx: &RunCtx) -> i32 {
         r.sym("valid-streams");
         shared.merge(r);
     });
+    // every message type: all 4096 methods x 4 classes as a 20-byte packet (every 1-cut chunking, exact buffer) and 26
+    // types spread over the method bits with 8 attribute bytes, alone and followed by a Binding packet (every <=2-cut
+    // chunking x 3 buffers): whether 20 bytes are a STUN header depends on the two top bits and the cookie only
+    (0..=0xFFFu16).into_par_iter().for_each(|m| {
+        let mut r = Report::new();
+        for c in 0..4u8 {
+            let p = ref_encode(&menu::lmsg(m, c, [0x5c; 12], vec![]), None);
+            for_cuts(p.len(), 1, &mut |cuts| check(&p, cuts, 20, "every-message-type", &mut r));
+        }
+        r.sym("every-message-type");
+        shared.merge(r);
+    });
+    {
+        let mut types: Vec<(u16, u8)> = vec![];
+        for bit in 0..12 {
+            types.push((1u16 << bit, (bit % 4) as u8));
+            types.push((0xFFF ^ (1u16 << bit), ((bit + 1) % 4) as u8));
+        }
+        types.push((0xFFF, 3));
+        types.push((0x000, 0));
+        types.par_iter().for_each(|(m, c)| {
+            let mut r = Report::new();
+            let p = ref_encode(&menu::lmsg(*m, *c, [0x5d; 12], vec![L::Data(vec![1, 2, 3, 4])]), None);
+            let mut two = p.clone();
+            two.extend_from_slice(&packet(4, 2));
+            for s in [&p, &two] {
+                for buf in [p.len(), p.len() + 1, 2 * p.len()] {
+                    for_cuts(s.len(), 2, &mut |cuts| check(s, cuts, buf, "message-type-menu", &mut r));
+                }
+            }
+            r.sym("message-type-menu");
+            shared.merge(r);
+        });
+    }
     // error streams: header corruptions that make the first / second packet a non-STUN header
     let base = {
         let mut s = packet(8, 1);
@@ -297,9 +342,9 @@ pub fn run(ctx: &RunCtx) -> i32 {
         rep,
         Finish {
             level: "exploration",
-            rule: format!("{} valid streams of 1-3 reference-encoded packets (0/4/8/24/100/1000 attribute bytes): every chunking with <=3 cuts (streams <=160 bytes; cuts may coincide or touch the ends, giving empty and one-byte chunks) or <=2 cuts (longer), plus equal pieces of 1..=64 bytes, x buffer sizes {{20, max-1, max, max+1, 2*max}}; 30 header corruptions x every <=2-cut chunking x 3 buffers; packets exceeding the buffer; every call's result compared with a reference splitter that only reads header length fields. Non-trivial = chunking whose whole per-call result sequence matched; outcomes = distinct result-kind sequences", n_streams),
+            rule: format!("{} valid streams of 1-3 reference-encoded packets (0/4/8/24/100/1000 attribute bytes): every chunking with <=3 cuts (streams <=160 bytes; cuts may coincide or touch the ends, giving empty and one-byte chunks) or <=2 cuts (longer), plus equal pieces of 1..=64 bytes, x buffer sizes {{20, max-1, max, max+1, 2*max}}; every one of the 16,384 message types as a 20-byte packet under every 1-cut chunking and 26 types spread over the method bits (8 attribute bytes, alone and followed by a Binding packet) under every <=2-cut chunking x 3 buffers; 30 header corruptions x every <=2-cut chunking x 3 buffers; packets exceeding the buffer; every call's result compared with a reference splitter that only reads header length fields (error steps by kind, call index and the length of the buffer handed back; the `consumed` / `size` fields of an error are not specified by the statement). Non-trivial = chunking whose whole per-call result sequence matched; outcomes = distinct result-kind sequences", n_streams),
             assumptions: vec!["the caller protocol modelled is: new decoder per packet, leftover bytes of the chunk go to the fresh decoder".into()],
-            required_symbols: vec!["valid-streams", "invalid-header-streams", "small-buffer-streams"],
+            required_symbols: vec!["every-message-type", "message-type-menu", "valid-streams", "invalid-header-streams", "small-buffer-streams"],
             min_outcomes: 8,
             exhaustive: true,
             bounds: json!({"max_cuts_short": 3, "max_cuts_long": 2, "streams": n_streams}),
